@@ -1,7 +1,7 @@
 """C08 (reported status is truthful, never stuck) and C16 (at most one run of a DAG file at a time):
 AgentLife.tla + the real blackdagger binary under the ptrace supervisor (vh agentlife), judged by AgentLifeObserve.tla."""
 import json, os, shutil, concurrent.futures as cf
-import vp, record_checks as rc
+import vp, record_checks as rc, sched_checks
 
 
 def run(prop, tier, seed, replay=None):
@@ -10,6 +10,8 @@ def run(prop, tier, seed, replay=None):
     work = vp.scratch(prop)
     try:
         q = tier == "quick"
+        if replay and "scenario" in json.load(open(replay)).get("replay", {}):
+            return sched_checks._run("C08", tier, seed, replay, rep, vh, work)      # a scheduler-rig scenario of the label stage
         binary = vp.build_binary(os.path.join(work, "blackdagger"))
         cfgs = ["MC_C08.cfg", "MC_C08_two.cfg"] if prop == "C08" else ["MC_C16.cfg"]
         states, transitions, runs = rc.model_check(work, "AgentLife", cfgs, workers=4)
@@ -43,6 +45,22 @@ def run(prop, tier, seed, replay=None):
                         "traces_validated_against_impl": consumed, "evaluations": consumed, "distinct_nontrivial": max(consumed - 1, 0),
                         "points_by_syscall": by_sys, "samples": samples, "exhaustive": not q})
         if prop == "C08":
+            # second stage: the labels a finished run leaves behind (no step left "running", no failed step labelled finished)
+            # under stop / timeout interleavings: StepSched invariants + gate-driven and free runs of the real scheduler,
+            # SchedObserve clauses C08_FinalStatusRunning / C08_FinishedButFailed
+            rep.cov["real_binary_stage"] = {k: rep.cov[k] for k in ("states", "transitions", "model_checking_runs", "traces_validated_against_impl",
+                                                                    "evaluations", "distinct_nontrivial", "points_by_syscall", "samples")}
+            first = dict(rep.cov)
+            w2 = os.path.join(work, "labels")
+            os.makedirs(w2)
+            sched_checks._run("C08", tier, seed, None, rep, vh, w2, finish=False)
+            rep.cov["label_stage"] = {k: rep.cov[k] for k in ("states", "transitions", "model_checking_runs", "traces_validated_against_impl",
+                                                               "evaluations", "distinct_nontrivial", "monitor_clauses_failed", "antecedents_exercised") if k in rep.cov}
+            for k in ("states", "transitions", "traces_validated_against_impl", "evaluations", "distinct_nontrivial"):
+                rep.cov[k] = first[k] + rep.cov["label_stage"].get(k, 0)
+            rep.cov["model_checking_runs"] = first["model_checking_runs"] + rep.cov["label_stage"].get("model_checking_runs", [])
+            rep.cov["samples"] = first["samples"]
+            rep.cov["exhaustive"] = False
             rep.cov["rule"] = ("the real binary runs `start` on a 2-step DAG with an exit handler under ptrace; it is SIGKILLed at the entry of every %s relevant system call "
                                "(history, log, marker, status socket; whole process group), then the real client's GetLatestStatus is asked, the DAG is started again with the real binary and "
                                "must run to completion and be recorded; plus the unkilled control run; distinct = kill points" % ("3rd" if q else ""))
